@@ -376,8 +376,11 @@ class RaggedShape(ViewBase):
         return self._raw_broadcast(values, dtype)
 
     def _raw_broadcast(self, values, dtype=None):
-        dtypes = {1: np.uint8, 2: np.uint16, 4: np.uint32, 8: np.uint64, 16: "uint128"}
+        dtypes = {1: np.uint8, 2: np.uint16, 4: np.uint32, 8: np.uint64}
         orig_dtype = values.dtype
+        if orig_dtype.itemsize not in dtypes:
+            # no unsigned integer type of that width (complex128, longdouble): repeat row by row
+            return np.repeat(values, self.lengths)
         values = values.view(dtypes[orig_dtype.itemsize])
         broadcast_builder = np.zeros(self.size + 1, dtype=values.dtype)
         broadcast_builder[self.ends[::-1]] ^= values[::-1]
